@@ -256,6 +256,9 @@ func runC08(t *Trace) *Result {
 // C13
 
 func genC13(r *RNG, tier string, run int) *Trace {
+	if run%397 == 5 {
+		return genMultiBig(r)
+	}
 	if run%3 == 2 || run%12 == 0 {
 		return genMultiTrace(r, tier)
 	}
@@ -551,6 +554,40 @@ func genC13Echo(r *RNG, tier string) *Trace {
 	pg2.overfill = 0.2
 	t.Ops = append(t.Ops, genParserOps(r, t.P, pg2, len(t.Input)-pre.EndCursor)...)
 	t.Note += " echo"
+	return t
+}
+
+// genMultiBig is the volume stratum of the multi world: two instances of one
+// parser type, each fed 70 to 150 KiB at once, parsed, Reset and fed again, so
+// that state shared between instances that only exists at this size (pooled
+// or cached large arrays) is exercised. Interleaving at the granularity the
+// scheduler provides.
+func genMultiBig(r *RNG) *Trace {
+	typ := parserTypes[r.Intn(len(parserTypes))]
+	t := &Trace{World: "multi", Prop: "C13"}
+	spec := ParserSpec{Type: typ, BufferSize: r.Pick(1<<17, 1<<18, 1<<20), BlockSize: r.Pick(0, 1<<16)}
+	spec.ShrinkSize = spec.BufferSize / 4
+	if typ == "GSAP" || typ == "OSAP" {
+		spec.MinMatchLen = 3
+	}
+	for i := 0; i < 2; i++ {
+		sp := spec
+		n := r.Range(70_000, 150_000)
+		if typ == "OSAP" {
+			n = r.Range(66_000, 80_000)
+		}
+		in := genInput(r, n, r.pickStr("copyback256", "copyback", "iid16"))
+		var ops []Op
+		ops = append(ops, Op{K: "Write", N: n * 2 / 3})
+		for j := 0; j < 3; j++ {
+			ops = append(ops, Op{K: "Parse", Re: true})
+		}
+		ops = append(ops, Op{K: "Reset"}, Op{K: "Write", N: n / 3})
+		for j := 0; j < 2; j++ {
+			ops = append(ops, Op{K: "Parse", Re: true})
+		}
+		t.Tasks = append(t.Tasks, &Trace{World: "parser", P: &sp, Input: in, Ops: ops})
+	}
 	return t
 }
 
